@@ -9,6 +9,17 @@
 (*   cmp = TRUE: co            the coefficient arrays, compared with the design's (logged)  *)
 (*   exc                       "none", or the exception that escaped instead of a result    *)
 (* Alarm clauses: exact reconstruction; band set and shapes equal to the slice geometry.    *)
+(*                                                                                          *)
+(* State-level events (ev = "picture"): one line per whole picture run through the real     *)
+(* forward_wavelet_transform + inverse_wavelet_transform (mode "fwt") or picture_encode +   *)
+(* picture_decode (mode "codec", in-range samples) with luma_width/height and               *)
+(* color_diff_width/height in the state:                                                    *)
+(*   mode, f, fho, d, dho, lw, lh, cw, ch, exc                                              *)
+(*   comps: <<Y, C1, C2>>, each a record like a "dwt" line (c = component name, w, h = the  *)
+(*          size the state gives that component, depth = sample depth or 0, pic, rec,       *)
+(*          shapes, geom, ...)                                                              *)
+(* Every component is judged by the same clauses as a single transform; the first alarm     *)
+(* (in the order Y, C1, C2) is reported with the component name.                            *)
 EXTENDS WaveletOps, Json, IOUtils, TLCExt
 
 Log == ndJsonDeserialize(IOEnv.TRACE_FILE)
@@ -53,16 +64,51 @@ Clause(e) ==
        THEN Verdict("SpecDoesNotReconstruct", FALSE)
   ELSE Verdict("ok", FALSE)
 
-TraceInit == l = 1 /\ bad = <<>>
+(* ------------------------------ state-level events ------------------------------------- *)
+SizeOf(e) == [lw |-> e.lw, lh |-> e.lh, cw |-> e.cw, ch |-> e.ch]
+WellFormedPicture(e) ==
+  /\ Len(e.comps) = 3
+  /\ \A i \in 1..3 :
+       LET k == e.comps[i] IN
+       /\ k.c = CompOrder[i] /\ k.ev = "dwt"
+       /\ k.w = CompW(SizeOf(e), k.c) /\ k.h = CompH(SizeOf(e), k.c)
+       /\ k.f = e.f /\ k.fho = e.fho /\ k.d = e.d /\ k.dho = e.dho
+       /\ (k.arrays => Width(k.pic) = k.w /\ Height(k.pic) = k.h)
+       /\ (e.mode = "codec") =>
+            (k.arrays /\ \A y \in 1..k.h : \A x \in 1..k.w : k.pic[y][x] >= 0 /\ k.pic[y][x] <= 2 ^ k.depth - 1)
+PictureClause(e) ==
+  IF e.exc # "none" THEN [c |-> "NoResult", alarm |-> TRUE, comp |-> "picture"]
+  ELSE IF ~WellFormedPicture(e) THEN [c |-> "MalformedEvent", alarm |-> TRUE, comp |-> "picture"]
+  ELSE LET vs == [i \in 1..3 |-> Clause(e.comps[i])]
+           alarms == {i \in 1..3 : vs[i].alarm}
+           others == {i \in 1..3 : vs[i].c # "ok"} IN
+       IF alarms # {} THEN LET i == CHOOSE i \in alarms : \A j \in alarms : i <= j IN
+                           [c |-> vs[i].c, alarm |-> TRUE, comp |-> CompOrder[i]]
+       ELSE IF others # {} THEN LET i == CHOOSE i \in others : \A j \in others : i <= j IN
+                                [c |-> vs[i].c, alarm |-> FALSE, comp |-> CompOrder[i]]
+       ELSE [c |-> "ok", alarm |-> FALSE, comp |-> ""]
+AnyClause(e) == IF e.ev = "picture" THEN PictureClause(e)
+                ELSE LET v == Clause(e) IN [c |-> v.c, alarm |-> v.alarm, comp |-> ""]
+
+(* which components of a recorded picture needed padding, by the design's geometry (vacuity) *)
+PadClassOf(e) ==
+  IF e.ev # "picture" THEN "single"
+  ELSE LET y == NeedsPadding(e.lw, e.lh, e.d, e.dho)
+           c == NeedsPadding(e.cw, e.ch, e.d, e.dho) IN
+       IF y /\ c THEN "both" ELSE IF y THEN "luma_only" ELSE IF c THEN "chroma_only" ELSE "neither"
+
+VARIABLE cls
+TraceInit == l = 1 /\ bad = <<>> /\ cls = [single |-> 0, both |-> 0, luma_only |-> 0, chroma_only |-> 0, neither |-> 0]
 TraceNext ==
   /\ l <= Len(Log)
   /\ l' = l + 1
   /\ LET e == Log[l]
-         v == Clause(e) IN
-     bad' = IF v.c = "ok" THEN bad
-            ELSE Append(bad, [tid |-> e.tid, line |-> l, clause |-> v.c, alarm |-> v.alarm])
-TraceSpec == TraceInit /\ [][TraceNext]_tvars
+         v == AnyClause(e) IN
+     /\ bad' = IF v.c = "ok" THEN bad
+               ELSE Append(bad, [tid |-> e.tid, line |-> l, clause |-> v.c, alarm |-> v.alarm, comp |-> v.comp])
+     /\ cls' = [cls EXCEPT ![PadClassOf(e)] = @ + 1]
+TraceSpec == TraceInit /\ [][TraceNext]_<<l, bad, cls>>
 
-Report == l = Len(Log) + 1 => PrintT(<<"BAD", ToJson(bad)>>)
+Report == l = Len(Log) + 1 => PrintT(<<"PADCLASS", ToJson(cls)>>) /\ PrintT(<<"BAD", ToJson(bad)>>)
 AllConsumed == TLCGet("stats").diameter - 1 = Len(Log)
 =============================================================================
